@@ -15,7 +15,19 @@ ASSUMPTIONS = ["history-level statement assumes no SYN-cookie collision among th
 
 
 def corpus():
-    return []
+    """Flows whose SYN cookie is exactly 0 or 0xFFFFFFFF (found once by a brute-force search over SipHash,
+    re-verified here): the only place where 'ack - 1' / 'ack == cookie + 1' arithmetic can go wrong mod 2^32."""
+    import json, os
+    path = os.path.join(os.path.dirname(os.path.dirname(os.path.abspath(__file__))), "boundary_cookies.json")
+    for w in json.load(open(path)):
+        key = (int(w["key"][0], 16), int(w["key"][1], 16))
+        s, d, sp, dp, ck = w["src"], w["dst"], w["sport"], w["dport"], w["cookie"]
+        assert net.cookie(key, s, d, sp, dp) == ck
+        fr = [net.frame_tcp(s, d, sp, dp, 0xFFFFFFF0, 0, 0x02)]
+        for ack in (0, 1, 2, 0xFFFFFFFF, 0xFFFFFFFE, (ck + 1) & 0xFFFFFFFF, ck, (ck + 2) & 0xFFFFFFFF):
+            # each on a fresh table: a validated flow accepts anything afterwards
+            yield Script(Cfg(key=key), fr + [net.frame_tcp(s, d, sp, dp, 0xFFFFFFF0, ack, 0x18, b"GET / HTTP/1.0\r\n\r\n")],
+                         "corpus:boundary-cookie %08x ack=%08x" % (ck, ack))
 
 
 def boundary_script(rng, key, v6):
